@@ -43,6 +43,11 @@ func (bufs Buffers) ReadFrom(r io.Reader) (int64, error) {
 			n, err := r.Read(buf[filled:])
 			total += int64(n)
 			filled += n
+			if filled == len(buf) && (err == nil || err == io.EOF) {
+				// This buffer is complete. An io.EOF delivered together
+				// with its final bytes is for the next read to report.
+				break
+			}
 			if (n == 0 && err == nil) || err == io.EOF {
 				return total, io.EOF
 			} else if err != nil {
